@@ -12,7 +12,11 @@ THEOREMS = ['MindsVerif.Props.C20.C20_noninterference', 'MindsVerif.Props.C20.C2
             'MindsVerif.Props.C20.C20_reuse_table_history_independent', 'MindsVerif.Props.C20.C20_reuse_memo_transparent',
             'MindsVerif.Props.C20.C20_witness_reuse_create_twice', 'MindsVerif.Props.C20.C20_witness_reuse_define_then_use',
             'MindsVerif.Props.C20.C20_witness_reuse_fixed',
-            'MindsVerif.Props.C20B.C20B_frame_ok', 'MindsVerif.Props.C20B.C20B_history_independent']
+            'MindsVerif.Props.C20B.C20B_frame_ok', 'MindsVerif.Props.C20B.C20B_history_independent',
+            'MindsVerif.Props.C20.C20_order_blind', 'MindsVerif.Props.C20.C20_witness_order_observed',
+            'MindsVerif.Props.C20.C20_quiet_steps_noninterference', 'MindsVerif.Props.C20.C20_witness_transient_sequential_invisible',
+            'MindsVerif.Props.C20.C20_witness_transient_interleaved', 'MindsVerif.Props.C20.C20_witness_transient_left_behind',
+            'MindsVerif.Props.C20B.C20B_module_quiet']
 ASSUME = [
     'the theorems cover the logical structure only: calls stepping private state and reading a shared store; '
     'that parse_sql / plan_query / SqlalchemyRender calls have this structure is CHECKED on the real code by this run '
@@ -27,6 +31,14 @@ ASSUME = [
     'exempt write paths: SQLAlchemy memo tables inside the dialect object, SLY position logs nobody reads, and the listed known finding; '
     'the conclusion is CHECKED on random sessions that repeat names: every call on a reused object against the same call on a new object '
     'in a pristine process',
+    'shared state written for the duration of a call: C20_quiet_steps_noninterference assumes every STEP (stretch between two entries '
+    'into library functions) leaves module / class level state as it found it; PROBED on every run for the data attributes of the '
+    'mindsdb_sql modules and their classes (Gen/Footprint.lean: moduleWrites, decided by C20B_module_quiet) and CHECKED by running other '
+    'calls at those entries (two-thread schedules at call granularity, executed deterministically) and by real threads on the fallback '
+    'paths of every renderer dialect; state outside mindsdb_sql (SQLAlchemy classes) is seen by these schedules only at the sampled entries',
+    'hash seeds: exception type and text are part of every compared result; planner errors are exercised over generated catalogs with '
+    'several projects / integrations / predictor namespaces; attributes of a new planner whose order differs between the hash-seed '
+    'processes are permuted in-process (C20_order_blind: membership-only use cannot show the order)',
 ]
 
 CATALOG = dict(
@@ -149,6 +161,21 @@ def do_job(job):
             from mindsdb_sql.render.sqlalchemy_render import SqlalchemyRender
             q = parse_sql(arg, 'mindsdb')
             return 'sql:' + SqlalchemyRender(d).get_string(q, with_failback=True)
+        if kind in ('rstrict', 'rexec'):    # renderer without the fallback: the exception (type AND text) is the result
+            from mindsdb_sql import parse_sql
+            from mindsdb_sql.render.sqlalchemy_render import SqlalchemyRender
+            q = parse_sql(arg, 'mindsdb')
+            if kind == 'rstrict':
+                return 'sql:' + SqlalchemyRender(d).get_string(q, with_failback=False)
+            return 'exec:' + json.dumps(SqlalchemyRender(d).get_exec_params(q, with_failback=True), default=str)
+        if kind == 'planc':      # planning against a GENERATED catalog (d = JSON of the keyword arguments)
+            from mindsdb_sql import parse_sql
+            from mindsdb_sql.planner import plan_query
+            plan = plan_query(parse_sql(arg, 'mindsdb'), **json.loads(d))
+            return 'plan:' + ';'.join(re.sub(r'\bt_\d+\b', 't_N', re.sub(r'0x[0-9a-f]+', '0x', str(s))) for s in plan.steps)
+        if kind == 'attrs':      # the ORDERED content of the attributes of a new planner for a generated catalog
+            from mindsdb_sql.planner.query_planner import QueryPlanner
+            return 'attrs:' + json.dumps(ordered_attrs(QueryPlanner(**json.loads(d))), sort_keys=True)
         if kind == 'fresh':    # a call / episode on a NEW long-lived object: arg = call (JSON), d = object spec (JSON)
             return reuse.fresh_result(tuple(json.loads(d)), json.loads(arg))
     except Exception as e:
@@ -171,6 +198,93 @@ def ddl_dml_jobs():
     """the same table names with DIFFERENT column sets / statement kinds: anything a call registers under the table name
     (a shared MetaData, a cache keyed by name) shows up as a result that depends on what was rendered before"""
     return [('render', sql, d) for sql in DDL_DML for d in RENDER_DIALECTS] + [('parse', sql, 'mindsdb') for sql in DDL_DML]
+
+
+NAME_POOL = ['pg', 'mysql_db', 'files', 'sales_project', 'hr_project', 'ml_project', 'proj', 'views', 'int1', 'int2',
+             'Analytics', 'x1', 'lake', 'dwh', 'staging', 'mindsdb', 'demo', 'forecasts']
+ERR_PLAN_TEMPLATES = [
+    'select * from orders where id = 1', 'select * from nosuch.orders', 'select * from {i}.orders o join customers c on c.id = o.cid',
+    'select * from {i}.t join {p}.{m}', 'select * from {p}.{m} where a = 1', 'select * from {p}.nomodel where a = 1',
+    'select * from {i}.t join nosuch.m', 'select * from {i}.t1 join {j}.t2 on t1.id = t2.id', 'insert into orders (a) values (1)',
+    'update orders set a = 1 where b = 2', 'delete from orders where a = 1', 'select * from {p}.{m} join {q}.{m}',
+    'select * from {i}.t t1 join {p}.{m} m1 join {q}.nomodel m2', 'create table orders (select * from {i}.t)',
+    'select * from (select * from orders) t join {i}.x', 'select * from {i}.t union select * from customers',
+    'select * from {i}.t where a in (select b from customers)', 'select * from {q}.t join {i}.t', 'select * from {i}.a.b.c.d',
+    'select {m}.x from {i}.t join {m}', 'show tables', 'select 1',
+]
+
+
+def gen_catalog(rng):
+    """keyword arguments of plan_query with SEVERAL projects / integrations / predictor namespaces and, more often than
+    not, no default namespace: collections the planner builds from them (some through sets) have many possible orders"""
+    names = rng.sample(NAME_POOL, rng.randint(3, 8))
+    n_data = rng.randint(1, max(1, len(names) // 2))
+    integrations = []
+    for n in names[:n_data]:
+        r = rng.random()
+        integrations.append(n if r < 0.4 else {'name': n, 'type': 'data'} if r < 0.8 else
+                            {'name': n, 'type': 'data', 'class_type': 'api'})
+    projects = names[n_data:]
+    declared = [n for n in projects if rng.random() < 0.6]
+    integrations += [{'name': n, 'type': 'project'} for n in declared]
+    rng.shuffle(integrations)
+    preds = []
+    for k in range(rng.randint(0, 4)):
+        p = dict(name='m%d' % k, integration_name=rng.choice(projects + ['ml_%d' % k]) if projects else 'ml_%d' % k)
+        if rng.random() < 0.3:
+            p.pop('integration_name')
+        preds.append(p)
+    cat = dict(integrations=integrations, predictor_metadata=preds)
+    r = rng.random()
+    if r < 0.3:
+        cat['default_namespace'] = rng.choice(names)
+    if rng.random() < 0.2:
+        cat['predictor_namespace'] = rng.choice(names)
+    return cat
+
+
+def catalog_jobs(rng, n_catalogs, per_catalog):
+    """planning — mostly FAILING planning — against generated catalogs; plus the ordered attribute content of a new planner
+    for each catalog (which collections have a hash-seed dependent order at all)"""
+    out = []
+    for _ in range(n_catalogs):
+        cat = gen_catalog(rng)
+        data = [i if isinstance(i, str) else i['name'] for i in cat['integrations'] if isinstance(i, str) or i.get('type') == 'data']
+        proj = [i['name'] for i in cat['integrations'] if isinstance(i, dict) and i.get('type') == 'project'] + \
+            [p['integration_name'] for p in cat['predictor_metadata'] if 'integration_name' in p] + ['mindsdb']
+        models = [p['name'] for p in cat['predictor_metadata']] or ['m0']
+        cj = json.dumps(cat, sort_keys=True)
+        out.append(('attrs', '', cj))
+        for t in rng.sample(ERR_PLAN_TEMPLATES, min(per_catalog, len(ERR_PLAN_TEMPLATES))):
+            sql = t.format(i=rng.choice(data or ['nodata']), j=rng.choice(data or ['nodata']), p=rng.choice(proj), q=rng.choice(proj),
+                           m=rng.choice(models))
+            out.append(('planc', sql, cj))
+    return out
+
+
+def render_error_jobs():
+    """statements the sqlalchemy path rejects, for every dialect name: strict (the exception is the result) and through
+    get_exec_params with the fallback (the printed tree is the result)"""
+    from tools.harness.interleave import FALLBACK_SQL, QUOTING_SQL
+    out = []
+    for d in RENDER_DIALECTS:
+        for k, sql in enumerate(FALLBACK_SQL):
+            out.append(('render', sql, d))
+            if k < 4:
+                out += [('rstrict', sql, d), ('rexec', sql, d)]
+        out += [('rstrict', QUOTING_SQL[0], d), ('rexec', QUOTING_SQL[2], d)]
+    return out
+
+
+def ordered_attrs(obj):
+    """attribute -> its content IN ORDER (lists / tuples: items; dicts: keys); sets have no order of their own"""
+    out = {}
+    for k, v in vars(obj).items():
+        if isinstance(v, (list, tuple)):
+            out[k] = [x if isinstance(x, (str, int, float, bool, type(None))) else reuse._flat(x, 0, ()) for x in v]
+        elif isinstance(v, dict):
+            out[k] = [str(x) for x in v]
+    return out
 
 
 def failing_family_jobs(rng, n_stmts):
@@ -211,7 +325,7 @@ def jobs_for(rng, n):
         else:
             jobs.append(('render', rng.choice([s for s in PLAN_SQL if 'nosuch' not in s]), rng.choice(RENDER_DIALECTS)))
     return jobs + plan_jobs(rng, max(40, n // 5)) + render_name_jobs(rng, max(120, n // 4)) + ddl_dml_jobs() + \
-        failing_family_jobs(rng, max(12, n // 40))
+        failing_family_jobs(rng, max(12, n // 40)) + catalog_jobs(rng, max(14, n // 25), 7) + render_error_jobs()
 
 
 def class_state_digest():
@@ -491,6 +605,199 @@ def reuse_streams(chk, fail, dist, plan, ref_results):
                 reuse_diverged=n_bad, reuse_wall_s=round(time.time() - t_start, 1))
 
 
+def plan_steps_str(plan):
+    return 'plan:' + ';'.join(re.sub(r'\bt_\d+\b', 't_N', re.sub(r'0x[0-9a-f]+', '0x', str(s))) for s in plan.steps)
+
+
+def hash_order_stream(chk, fail, dist, uniq, per_seed, seeds, base, rng):
+    """which ORDERED attributes of a new QueryPlanner differ between processes with different PYTHONHASHSEED (lists built
+    from sets), and: no result — plan or error text — may depend on the order of such an attribute.  Checked in this
+    process by permuting the attribute on a new planner (reverse, rotations, shuffles) before from_query."""
+    import time
+    from mindsdb_sql import parse_sql
+    from mindsdb_sql.planner.query_planner import QueryPlanner
+    t_start = time.time()
+    variant = {}
+    for k, j in enumerate(uniq):
+        if j[0] != 'attrs':
+            continue
+        vals = [per_seed[hs][k] for hs in seeds]
+        if not all(v.startswith('attrs:') for v in vals):
+            continue
+        ref = json.loads(vals[0][6:])
+        for hs, v in zip(seeds[1:], vals[1:]):
+            other = json.loads(v[6:])
+            for attr in set(ref) | set(other):
+                if ref.get(attr) != other.get(attr):
+                    same_content = sorted(map(str, ref.get(attr) or [])) == sorted(map(str, other.get(attr) or []))
+                    variant.setdefault(attr, dict(catalog=j[2], seed_a=seeds[0], seed_b=hs, a=ref.get(attr), b=other.get(attr),
+                                                  order_only=same_content))
+    dist['hash_order_variant_attributes'] = sorted(variant)
+    for attr, ex in variant.items():
+        if not ex['order_only']:
+            fail('hashseed:attribute-content', 'the CONTENT (not only the order) of an attribute of a new QueryPlanner depends on '
+                 'PYTHONHASHSEED', attribute=attr, **ex)
+    n = 0
+    cats = sorted({j[2] for j in uniq if j[0] == 'planc'})
+    for cj in cats:
+        cat = json.loads(cj)
+        for j in [x for x in uniq if x[0] == 'planc' and x[2] == cj]:
+            for attr in sorted(variant):
+                probe = QueryPlanner(**copy.deepcopy(cat))
+                val = getattr(probe, attr, None)
+                if not isinstance(val, list) or len(val) < 2:
+                    continue
+                perms = [val[::-1], val[1:] + val[:1]]
+                sh = list(val)
+                rng.shuffle(sh)
+                perms.append(sh)
+                for perm in perms:
+                    if perm == val:
+                        continue
+                    try:
+                        pl = QueryPlanner(parse_sql(j[1], 'mindsdb'), **copy.deepcopy(cat))
+                        setattr(pl, attr, list(perm))
+                        got = plan_steps_str(pl.from_query())
+                    except Exception as e:
+                        got = 'exc:%s:%s' % (type(e).__name__, str(e))
+                    n += 1
+                    chk.count(('hashorder', j, attr, tuple(perm)))
+                    if got != base[j]:
+                        fail('hashorder:QueryPlanner:%s' % attr, 'the result of planning depends on the ORDER of QueryPlanner.%s, and '
+                             'that order depends on PYTHONHASHSEED (seen: %s vs %s for seeds %s / %s)' % (
+                                 attr, ex_short(variant[attr]['a']), ex_short(variant[attr]['b']), variant[attr]['seed_a'],
+                                 variant[attr]['seed_b']),
+                             hashorder=dict(sql=j[1], catalog=cat, attribute=attr, order=list(perm), constructed_order=val),
+                             constructed=base[j][:500], permuted=got[:500])
+                        break
+    dist['hash_order_permutation_calls'] = n
+    dist['hash_order_wall_s'] = round(time.time() - t_start, 1)
+
+
+def ex_short(v):
+    return json.dumps(v)[:120]
+
+
+INTERLEAVE_VICTIMS = None
+
+
+def interleave_victims():
+    from tools.harness.interleave import FALLBACK_SQL, QUOTING_SQL
+    return [('parse', QUOTING_SQL[0], 'mindsdb'), ('render', FALLBACK_SQL[0], 'mysql'), ('render', QUOTING_SQL[1], 'postgres'),
+            ('plan', 'select * from tab1 t1 join pg.tab2 t2 on t1.id = t2.id where t1.x = 1', 'legacy')]
+
+
+def interleave_stream(chk, fail, dist, rng, deeper):
+    """two-thread schedules at CALL granularity, executed deterministically: call A runs under a profile hook; at chosen
+    entries into library functions (boundaries) the victims run in the same thread — with the GIL a thread switch can
+    happen at any of these points.  Every victim must answer what it answers alone, A too.  The hook also compares module /
+    class level attributes of mindsdb_sql with their values at the start of A (state written for the duration of a call)."""
+    import time
+    from tools.harness import interleave as il
+    t_start = time.time()
+    victims = interleave_victims()
+    alone = {v: do_job(v) for v in victims}
+    a_jobs = [j for _, j in il.entry_jobs()]
+    if deeper:
+        a_jobs += [j for j in render_error_jobs() if j not in a_jobs]
+    w = il.Watch()
+    n_sched = n_bound = 0
+    transient_seen = {}
+    thunks = [(lambda v=v: do_job(v)) for v in victims]
+    fixed = [0, 7, 60, 400] if not deeper else [0, 1, 2, 4, 7, 12, 20, 35, 60, 100, 150, 250, 400, 650, 1000, 1600, 2500]
+    for a in a_jobs:
+        want_a = do_job(a)
+        r = w.run(lambda: do_job(a), inject_at={p: thunks for p in fixed}, on_transient=thunks)
+        nb = r['boundaries']
+        n_bound += nb
+        for (h, attr), info in r['transient'].items():
+            transient_seen.setdefault((h, attr), (a, info))
+        for (h, attr), info in r['persistent'].items():
+            if (h, attr) != ('mindsdb_sql.parser.ast.select.identifier', 'RESERVED_KEYWORDS'):
+                fail('shared-state-written:%s.%s' % (h, attr), 'a call leaves a module / class level attribute of the library changed',
+                     job=list(a), holder=h, attribute=attr, value=info['value'])
+        got_a = r.get('result', 'exc:' + r.get('exc', ''))
+        for p, results in sorted(r['injected'].items()):
+            for v, got in zip(victims, results):
+                n_sched += 1
+                chk.count(('interleave', a, p, v))
+                if got != alone[v]:
+                    cause = sorted('%s.%s' % k for k, info in r['transient'].items() if info['at'] <= p)
+                    fail('interleave:%s' % ('+'.join(cause) or 'undiagnosed'),
+                         'a call made while another call is in progress (thread switch at an entry into a library function) answers '
+                         'differently from the same call made alone' + (': the call in progress has temporarily changed %s' % ', '.join(cause) if cause else ''),
+                         interleave=dict(in_progress=list(a), boundary=p, of=nb, victim=list(v)), alone=alone[v][:500], interleaved=got[:500],
+                         transient_state=cause)
+        if got_a != want_a:
+            fail('interleave:in-progress-call', 'a call gives a different result when other calls run in the middle of it',
+                 interleave=dict(in_progress=list(a), boundaries=sorted(r['injected']), victims=[list(v) for v in victims]),
+                 alone=want_a[:500], interleaved=got_a[:500])
+    for h, attr in w.new_attributes():
+        fail('shared-state-written:%s.%s' % (h, attr), 'a call creates a module / class level attribute of the library', holder=h, attribute=attr)
+    for (h, attr), (a, info) in transient_seen.items():
+        fail('transient-shared-state:%s.%s' % (h, attr), 'a call changes a module / class level attribute of the library for its duration '
+             '(restored before it returns): sequential callers never see it, a concurrent caller does',
+             job=list(a), holder=h, attribute=attr, value_during_call=info['value'], first_seen_at_boundary=info['at'])
+    dist.update(interleave_calls=len(a_jobs), interleave_boundaries=n_bound, interleave_schedules=n_sched,
+                interleave_wall_s=round(time.time() - t_start, 1))
+
+
+def fallback_storm(chk, fail, dist, rng, deeper):
+    """real threads: one thread per renderer dialect name loops over statements that take the FALLBACK path (the printed tree),
+    other threads print / render / plan trees with identifiers that need quoting; all released together, switch interval 1e-6;
+    every result against the single-thread result"""
+    import time
+    from tools.harness.interleave import FALLBACK_SQL, QUOTING_SQL, WIDE_FALLBACK_SQL
+    t_start = time.time()
+    fb = [[('render', sql, d) for sql in [WIDE_FALLBACK_SQL] + FALLBACK_SQL[:4]] for d in RENDER_DIALECTS]
+    plain = [[('parse', sql, 'mindsdb') for sql in QUOTING_SQL],
+             [('render', sql, d) for sql in QUOTING_SQL for d in ('mysql', 'sqlite')],
+             [('render', sql, d) for sql in QUOTING_SQL for d in ('postgres', 'mssql')],
+             [('plan', 'select * from int1.`order` t join mindsdb.pred m', 'mindsdb'), ('parse', QUOTING_SQL[1], 'mysql')],
+             [('rexec', sql, 'mysql') for sql in FALLBACK_SQL[:3]],
+             # planners with DIFFERENT catalogs / default namespaces side by side
+             [('plan', 'select * from tab1 t1 join pg.tab2 t2 on t1.id = t2.id where t1.x = 1', 'legacy'),
+              ('plan', 'select * from tab1 where a = 1', 'api')],
+             [('plan', 'select * from tab6 t join int2.t2 s on s.id = t.id', 'mixed'),
+              ('plan', 'select * from tab1 t1 join mindsdb.pred m join int2.t2 t2 on t2.id = m.id', 'mindsdb')]]
+    groups = fb + plain
+    alone = {j: do_job(j) for g in groups for j in g}
+    iters = 8 if not deeper else 40
+    n = len(groups)
+    res = [None] * n
+    bar = threading.Barrier(n)
+
+    def work(i):
+        out = []
+        bar.wait()
+        for _ in range(iters):
+            for j in groups[i]:
+                out.append((j, do_job(j)))
+        res[i] = out
+    sys.setswitchinterval(1e-6)
+    try:
+        ths = [threading.Thread(target=work, args=(i,)) for i in range(n)]
+        [t.start() for t in ths]
+        [t.join() for t in ths]
+    finally:
+        sys.setswitchinterval(0.005)
+    bad = 0
+    for i in range(n):
+        for j, r in res[i] or []:
+            chk.count(('storm', i, j))
+            if r != alone[j]:
+                bad += 1
+                if bad <= 20:
+                    fail('threads:fallback-storm', 'result differs while other threads render statements that take the fallback path',
+                         job=list(j), sequential=alone[j][:400], concurrent=r[:400])
+    after = {j: do_job(j) for g in groups for j in g}
+    for j in after:
+        if after[j] != alone[j]:
+            fail('threads:fallback-storm:left-behind', 'after the concurrent fallback renders have finished the same call answers '
+                 'differently from before (shared state restored in the wrong order)', job=list(j), before=alone[j][:400], after=after[j][:400])
+    dist.update(storm_threads=n, storm_calls=sum(len(x or []) for x in res), storm_diverged=bad, storm_wall_s=round(time.time() - t_start, 1))
+
+
 def kf_match(k, f):
     return k.get('sig') == f.get('sig')
 
@@ -608,6 +915,10 @@ def run(chk):
             if r != base[j]:
                 fail('threads', 'result differs when other threads run concurrently', job=list(j),
                      sequential=base[j][:300], concurrent=r[:300])
+    # --- shared state written for the duration of a call: deterministic two-thread schedules at call granularity, and real threads
+    # on the fallback paths of every renderer dialect
+    interleave_stream(chk, fail, dist, rng, deep or bool(chk.broken()))
+    fallback_storm(chk, fail, dist, rng, deep or bool(chk.broken()))
     # --- threads sharing ONE catalog object (a server keeps its metadata in one place)
     shared_cat = copy.deepcopy(CATALOG)
     vjobs = ['select * from int1.t1 join mindsdb.pred.3', 'select * from int1.t1 join mindsdb.pred',
@@ -651,6 +962,8 @@ def run(chk):
         for hs in seeds[1:]:
             for j, a, b in zip(uniq, ref, per_seed[hs]):
                 chk.count(('seed', hs, j))
+                if j[0] == 'attrs':      # an observation (see hash_order_stream), not a result
+                    continue
                 if a != b:
                     if norm_msg(a) == norm_msg(b):
                         fail('hashseed:suggestion-order', 'the order of the suggestions in the syntax-error message '
@@ -659,6 +972,8 @@ def run(chk):
                         fail('hashseed', 'result depends on PYTHONHASHSEED', job=list(j), seed_a=seeds[0], seed_b=hs,
                              a=a[:300], b=b[:300])
         chk.oblige('assume:hashseed-subprocesses', 'assumption-check', True)
+        # --- no result depends on the order of a collection whose order depends on the hash seed (error texts included)
+        hash_order_stream(chk, fail, dist, uniq, per_seed, seeds, base, rng)
         # --- REUSED objects: sessions on one renderer / planner / lexer+parser pair against new objects in a pristine process
         reuse_streams(chk, fail, dist, rplan, rref)
         # --- isolated reference: a sample of jobs, each as the only call of a fresh process, against the same job
@@ -729,6 +1044,56 @@ def replay(path):
     data = json.load(open(path))
     f = data.get('failure') or {}
     print(json.dumps(f or data, indent=1)[:3000])
+    if f.get('interleave') and 'victim' in f['interleave']:
+        # re-run on the real code: the victim at the recorded entry into a library function during the call in progress
+        from tools.harness import interleave as il
+        r = f['interleave']
+        a, v, k = tuple(r['in_progress']), tuple(r['victim']), r['boundary']
+        alone = do_job(v)
+        do_job(a)            # everything imported and lazily built before the watched run (boundaries are counted from its start)
+        out = il.Watch().run(lambda: do_job(a), inject_at={k: [lambda: do_job(v)]})
+        got = (out['injected'].get(k) or ['<boundary %d not reached>' % k])[0]
+        print('call in progress   %s' % json.dumps(list(a)))
+        print('state it changed   %s' % json.dumps({'%s.%s' % h: i for h, i in out['transient'].items()}))
+        print('other call         %s (run at entry no. %d of %d into a library function)' % (json.dumps(list(v)), k, out['boundaries']))
+        print('alone        -> %s' % alone[-300:])
+        print('interleaved  -> %s' % got[-300:])
+        print('REPRODUCED' if got != alone else 'not reproduced on this tree')
+        return 1 if got != alone else 0
+    if str(f.get('sig', '')).startswith('transient-shared-state') and f.get('job'):
+        from tools.harness import interleave as il
+        do_job(tuple(f['job']))
+        out = il.Watch().run(lambda: do_job(tuple(f['job'])))
+        seen = {'%s.%s' % h: i for h, i in out['transient'].items()}
+        print('call %s: attributes of the library that differ DURING the call (value, first entry into a library function at which it '
+              'was seen; %d entries in all) and are back afterwards:\n%s' % (json.dumps(f['job']), out['boundaries'], json.dumps(seen, indent=1)))
+        key = '%s.%s' % (f.get('holder'), f.get('attribute'))
+        print('REPRODUCED' if key in seen else 'not reproduced on this tree')
+        return 1 if key in seen else 0
+    if f.get('hashorder'):
+        from mindsdb_sql import parse_sql
+        from mindsdb_sql.planner.query_planner import QueryPlanner
+        r = f['hashorder']
+        res = []
+        for order in (None, r['order']):
+            try:
+                pl = QueryPlanner(parse_sql(r['sql'], 'mindsdb'), **copy.deepcopy(r['catalog']))
+                if order is not None:
+                    setattr(pl, r['attribute'], list(order))
+                print('QueryPlanner.%s = %s' % (r['attribute'], getattr(pl, r['attribute'])))
+                res.append(plan_steps_str(pl.from_query()))
+            except Exception as e:
+                res.append('exc:%s:%s' % (type(e).__name__, e))
+            print('  -> %s' % res[-1][:600])
+        print('REPRODUCED' if res[0] != res[1] else 'not reproduced on this tree')
+        return 1 if res[0] != res[1] else 0
+    if str(f.get('sig', '')).startswith('hashseed') and f.get('job') and 'seed_a' in f:
+        a = run_subprocess([f['job']], f['seed_a'])[0]
+        b = run_subprocess([f['job']], f['seed_b'])[0]
+        print('PYTHONHASHSEED=%s -> %s' % (f['seed_a'], a[-400:]))
+        print('PYTHONHASHSEED=%s -> %s' % (f['seed_b'], b[-400:]))
+        print('REPRODUCED' if a != b else 'not reproduced on this tree')
+        return 1 if a != b else 0
     if f.get('reuse'):
         # re-run on the real code: the history and the call on ONE object, the call alone on a new object
         r = f['reuse']
